@@ -100,15 +100,19 @@ Definition live_part (w0 w : world) : list pnode :=
   flat_map (fun p => if n_inmodel (fst p) then [snd p] else [])
            (combine (w_nodes w0) (firstn (List.length (w_nodes w0)) (w_nodes w))).
 
+Definition res_ok {A} (r : result A) : bool := match r with Ok _ => true | Err _ => false end.
+
 Inductive obs_build :=
 | OBuilt (wo : world) (mo : list nid) (vo : list vid) (order : option (list string))
 | ORejected (wo : world) (wit : list nid).
 
 (* copy=false / copy=true *)
-Definition agree_build (strip check_first proxy_fix : bool) (copy : bool) (w : world) (rn : list nid) (rv : list vid)
+Definition agree_build (strip check_first proxy_fix : bool) (copy grow : bool) (w : world) (rn : list nid) (rv : list vid)
            (o : obs_build) : bool :=
   match o with
   | OBuilt wo mo vo order =>
+    (* Model(roots, copy=True) first grows (and pops) a model from the originals themselves *)
+    (if copy && grow then res_ok (snd (build strip check_first proxy_fix (topo_obs order) false w rn rv)) else true) &&
     match build strip check_first proxy_fix (topo_obs order) copy w rn rv with
     | (wm, Ok m) =>
       let k := List.length (w_nodes w) in
@@ -123,7 +127,7 @@ Definition agree_build (strip check_first proxy_fix : bool) (copy : bool) (w : w
     | (_, Err _) => false
     end
   | ORejected wo wit =>
-    match build strip check_first proxy_fix (fun _ _ => None) copy w rn rv with
+    match build strip check_first proxy_fix (fun _ _ => None) (copy && negb grow) w rn rv with
     | (wm, Ok _) => false
     | (wm, Err e) =>
       list_eqb pnode_eqb (live_part w wm) (live_part w wo)
@@ -154,7 +158,7 @@ Definition agree_mutate (proxy_fix : bool) (w : world) (t : target) (mu : mutati
   end.
 
 Inductive step :=
-| SBuild (copy : bool) (w : world) (rn : list nid) (rv : list vid) (o : obs_build)
+| SBuild (copy grow : bool) (w : world) (rn : list nid) (rv : list vid) (o : obs_build)
 | SPop (w : world) (mo : list nid) (vo : list vid) (wo : world) (keys vkeys : list string)
 | SMutate (w : world) (t : target) (mu : mutation) (rejected : bool) (wo : world).
 
@@ -162,7 +166,7 @@ Inductive step :=
    (strip = 005a821, check_first = 5ebbe54, proxy_fix = 66a7abc) *)
 Definition agree_step (s : step) : bool :=
   match s with
-  | SBuild copy w rn rv o => agree_build true true true copy w rn rv o
+  | SBuild copy grow w rn rv o => agree_build true true true copy grow w rn rv o
   | SPop w mo vo wo keys vkeys => agree_pop w mo vo wo keys vkeys
   | SMutate w t mu rej wo => agree_mutate true w t mu rej wo
   end.
